@@ -469,11 +469,30 @@ def r1_5(ctx: Ctx, rule="R1.5"):
     from ..pat import expand_single_defs as _xsd
     if comp:
         c = _xsd(f.node, comp[0])
-        ok_iter = attr_chain(c.generators[0].iter) == em.frames_attr and not c.generators[0].ifs
+
+        def _plain_iter(it):
+            # iterating list(X) / tuple(X) / X.keys() visits what iterating X visits
+            while True:
+                if isinstance(it, ast.Call) and call_name(it) in ("list", "tuple") and len(it.args) == 1 and not it.keywords:
+                    it = it.args[0]
+                elif isinstance(it, ast.Call) and isinstance(it.func, ast.Attribute) and it.func.attr == "keys" and not it.args:
+                    it = it.func.value
+                else:
+                    return it
+        ok_iter = attr_chain(_plain_iter(c.generators[0].iter)) == em.frames_attr and not c.generators[0].ifs
         elt = c.elt
         idx = norm(c.generators[0].target)
+        d = None
         if isinstance(elt, ast.Tuple) and len(elt.elts) == 2 and norm(elt.elts[1]) == idx:
             d = elt.elts[0]
+        elif rets and len(c.generators) == 1:
+            # (distance, index) pairs built by zip(distances, indexes) over the same iterable
+            rv = _xsd(f.node, rets[0].value)
+            for z in ast.walk(rv):
+                if isinstance(z, ast.Call) and call_name(z) == "zip" and len(z.args) == 2 and norm(z.args[0]) == norm(c) \
+                        and norm(_plain_iter(z.args[1])) == norm(_plain_iter(c.generators[0].iter)):
+                    d = elt
+        if d is not None:
             target = [p for p in f.params if p != "self"][0]
             if isinstance(d, ast.Call) and call_name(d) in ("euclidean", "norm", "sqeuclidean"):
                 txt = norm(d)
